@@ -138,11 +138,14 @@ def _min(a, b):
 class Lemma:
     """name, hyps(args), P(args, n), bound N(args); proved by induction on n in 0..N"""
 
-    def __init__(self, name, params, hyps, stmt, upto):
+    def __init__(self, name, params, hyps, stmt, upto, assumed=None):
         self.name, self.params, self.hyps, self.stmt, self.upto = name, params, hyps, stmt, upto
+        self.assumed = assumed      # text: the lemma is NOT proved here (listed as an assumption in the evidence)
 
     def goals(self):
         """closed proof obligations [(label, formula)] over fresh constants"""
+        if self.assumed:
+            return []
         args = [z3.Const(f"%L_{self.name}_{nm}", srt) for nm, srt in self.params]
         n = z3.Int(f"%L_{self.name}_n")
         H, N = self.hyps(*args), self.upto(*args)
@@ -222,3 +225,28 @@ def prove(lemma, timeout_ms=20000):
         out.append((label, "proved" if r == z3.unsat else ("refuted" if r == z3.sat else "unknown"), time.time() - t0,
                     s.reason_unknown() if r == z3.unknown else ""))
     return out
+
+
+def permutation_lemma(kind):
+    """DA = D o p, WA = W o p for a permutation p of 0..N-1: every weighted count over (DA, WA) equals the one over (D, W).
+    ASSUMED (finite sums are invariant under permutation of the index set; Mathlib: Equiv.sum_comp) -- z3 is not asked to
+    prove it; lean/perm_sum.lean states and proves it over Fin N."""
+    s, A = _wsort(kind)
+    params = [("D", RealArr), ("W", A), ("DA", RealArr), ("WA", A), ("p", IntArr), ("N", z3.IntSort())]
+
+    def hyps(D, W, DA, WA, p, N):
+        i, j = z3.Int("%pl_i"), z3.Int("%pl_j")
+        return z3.And(N >= 0,
+                      z3.ForAll([i], z3.Implies(z3.And(i >= 0, i < N), z3.And(z3.Select(p, i) >= 0, z3.Select(p, i) < N))),
+                      z3.ForAll([i, j], z3.Implies(z3.And(i >= 0, i < j, j < N), z3.Select(p, i) != z3.Select(p, j))),
+                      z3.ForAll([i], z3.Implies(z3.And(i >= 0, i < N), z3.And(z3.Select(DA, i) == z3.Select(D, z3.Select(p, i)),
+                                                                              z3.Select(WA, i) == z3.Select(W, z3.Select(p, i))))))
+
+    def stmt(D, W, DA, WA, p, N, n):
+        lo, hi, x, c = z3.Real("%pl_lo"), z3.Real("%pl_hi"), z3.Real("%pl_x"), z3.Bool("%pl_c")
+        return z3.And(z3.ForAll([lo, hi, c], wsum_fn(kind)(DA, WA, lo, hi, c, n) == wsum_fn(kind)(D, W, lo, hi, c, n)),
+                      z3.ForAll([x], side_fn(kind, "below")(DA, WA, x, n) == side_fn(kind, "below")(D, W, x, n)),
+                      z3.ForAll([x], side_fn(kind, "above")(DA, WA, x, n) == side_fn(kind, "above")(D, W, x, n)))
+
+    return Lemma(f"permutation_{kind}", params, hyps, stmt, lambda D, W, DA, WA, p, N: N,
+                 assumed="finite sums are invariant under a permutation of the index set (Mathlib Equiv.sum_comp; lean/perm_sum.lean)")
